@@ -209,6 +209,10 @@ pub fn install_quiet_hook() {
     }));
 }
 
+pub fn to_json<T: Serialize>(t: &T) -> String {
+    serde_json::to_string(t).unwrap_or_default()
+}
+
 pub fn last_panic() -> String {
     LAST_PANIC.with(|p| p.borrow().clone())
 }
